@@ -13,7 +13,12 @@ deriving DecidableEq, Repr, Inhabited
 /-- types as the checker leaves them on expression nodes (`unk` before checking) -/
 inductive Ty
   | unk | int | float | str | bool | pattern | none | buckets | undef | dim | var | error | other
+  | via (t : Ty)        -- reached through a type variable (the node's type is not the global type object itself)
 deriving DecidableEq, Repr, Inhabited
+
+def Ty.root : Ty → Ty
+  | .via t => t.root
+  | t => t
 
 /-- operator tokens of parser.y -/
 inductive Op
